@@ -141,8 +141,8 @@ ssize_t simk_write(int fd, const void *buf, size_t n) {
     return (ssize_t) n;
   }
   Pipe *pp = o->pipe;
+  if (n == 0) { k->logrec(K_write, fd, 0, pp->id, 0, 0); return 0; }  // as on Linux: nothing is checked for an empty write
   if (pp->readers == 0) FAIL(K_write, fd, (int64_t) n, pp->id, EPIPE, 0);
-  if (n == 0) { k->logrec(K_write, fd, 0, pp->id, 0, 0); return 0; }
   size_t atomic = pp->cap < 4096 ? pp->cap : 4096;
   size_t limit = n;
   if (f && f->err == F_SHORT && f->variant > 0 && (size_t) f->variant < n) limit = (size_t) f->variant;
